@@ -205,6 +205,41 @@ func genC10(c *Ctx) {
 	c.rule = "every share emitted for blobs (hot lengths x versions), compact sequences (offset-covering tx lists) and padding, byte-compared with an independent encoder (Go) and with the Coq closed-form spec; accessors on emitted shares and on crafted 512-byte strings (all 256 info bytes x reserved-byte values x namespaces); non-trivial = distinct emitted sequence of more than one share, or distinct crafted share"
 	r := c.rng
 	nss := blobNamespaces(r, 4)
+	// Go side only: sequences of 2^24 bytes and more - the sequence length is a 4-byte big-endian number and its
+	// MOST significant byte is non-zero only from 16 MiB on (blobs through ToShares; a compact sequence of one
+	// 16 MiB transaction)
+	for _, l := range []int{1<<24 - 1, 1<<24 + 5} {
+		l := l
+		c.guard("Blob.ToShares (16 MiB)", map[string]any{"data_len": l}, func() {
+			g := genBlob{ns: nss[0], data: make([]byte, l)}
+			copy(g.data, r.Bytes(64))
+			g.data[l-1] = 0x5a
+			shs, err := g.blob().ToShares()
+			want := (l - 478 + 481) / 482
+			if l > 478 {
+				want++
+			}
+			ok := err == nil && len(shs) == want
+			if ok {
+				first := shs[0].ToBytes()
+				ok = binary.BigEndian.Uint32(first[30:34]) == uint32(l) && shs[0].SequenceLen() == uint32(l) && first[29] == 0x01 &&
+					bytes.Equal(first[34:98], g.data[:64]) && shs[len(shs)-1].ToBytes()[30+(l-478-1)%482] == 0x5a
+			}
+			c.check(ok, "Blob.ToShares", "sequence length field / share count / payload wrong for a blob of 16 MiB or more", map[string]any{"data_len": l, "shares": len(shs)})
+		})
+		c.guard("CompactShareSplitter (16 MiB)", map[string]any{"tx_len": l}, func() {
+			css := share.NewCompactShareSplitter(share.TxNamespace, 0)
+			t := make([]byte, l)
+			t[l-1] = 0x5a
+			_ = css.WriteTx(t)
+			shs, err := css.Export()
+			total := uint32(len(refDelimited(t)))
+			c.check(err == nil && len(shs) > 0 && binary.BigEndian.Uint32(shs[0].ToBytes()[30:34]) == total && shs[0].SequenceLen() == total,
+				"CompactShareSplitter.Export", "sequence length field wrong for a compact sequence of 16 MiB or more", map[string]any{"tx_len": l, "want": total})
+		})
+		c.count("sequence_of_16MiB")
+		c.goOnly++
+	}
 	// blobs
 	var lens []int
 	lens = append(lens, sparseHot...)
@@ -1121,6 +1156,11 @@ func genC11(c *Ctx) {
 		{r.Bytes(1428 + 478), r.Bytes(5), r.Bytes(7)},
 		{r.Bytes(10), r.Bytes(1417), r.Bytes(5)},
 		{r.Bytes(1428), r.Bytes(476), r.Bytes(3)},
+		// the first unit of a continuation share starts at in-share offset 256 (reserved bytes 00 00 01 00: a zero LOW
+		// byte) and further units start in the same share
+		{r.Bytes(694), r.Bytes(50), r.Bytes(60)},
+		{r.Bytes(100), r.Bytes(593), r.Bytes(20), r.Bytes(30)},
+		{r.Bytes(694 + 478), r.Bytes(5), r.Bytes(5), r.Bytes(300)},
 	}
 	{
 		// 700 one-byte transactions: a unit ends on every share end
